@@ -62,8 +62,9 @@ finally:
         run('git -C %s checkout -- evidence/%s.json' % (V, p))
 dst = V / 'seeded' / ('%s_%s' % (pid, name))
 dst.mkdir(parents=True, exist_ok=True)
-shutil.copy(src / 'patch.diff', dst / 'patch.diff')
-shutil.copy(src / 'demo.py', dst / 'demo.py')
+if src.resolve() != dst.resolve():
+    shutil.copy(src / 'patch.diff', dst / 'patch.diff')
+    shutil.copy(src / 'demo.py', dst / 'demo.py')
 if (src / 'notes.md').exists():
     meta['needs'] = (src / 'notes.md').read_text()[:3000]
 meta['caught_by'] = [p for p, r in meta['checks'].items() if r['rc'] == 1]
